@@ -127,6 +127,12 @@ def install_value_model(E, ctx):
                 # some string function of the text: uninterpreted (it MAY change the text)
                 fn_ = z3.Function('str_' + name, S, S)
                 return VStub('str.' + name, lambda E_, a, k: mkstr(E, fn_(str_of(o.t))))
+            if name in ('isidentifier', 'isdigit', 'isalpha', 'isalnum', 'isnumeric', 'isspace', 'islower', 'isupper',
+                        'isdecimal', 'istitle', 'isascii', 'isprintable'):
+                if not E.branch(is_str(o.t)):
+                    E.throw('AttributeError')
+                pred = z3.Function('str_' + name, S, B)        # some property of the text
+                return VStub('str.' + name, lambda E_, a, k: VBool(pred(str_of(o.t))))
             if name in ('find', 'index', 'rfind'):
                 if not E.branch(is_str(o.t)):
                     E.throw('AttributeError')
